@@ -5,6 +5,21 @@ HERE = os.path.dirname(os.path.dirname(os.path.abspath(__file__)))
 
 # id -> (engine, category, technique, level text, level note, design ref)
 CHECKS = {
+ "C04": ("consent", "exploration",
+   "complete enumeration of the finite configuration product on fresh authenticators with scripted user-validation doubles; statement-derived oracle plus a metamorphic pair over store content",
+   "All ~4.5k combinations of operation, requested rk/up/uv, verification and presence capability, user-validation outcome (4 results + 3 error codes), pin-auth, store content and exclude list are executed at the authenticator API and (reduced) through Client; success requires the reported presence/verification, UP/UV bits must equal what the double reported, every missing-consent class must fail with the store snapshot unchanged and with the same outcome whether or not a matching credential exists, and the credential shown to check_user must be the one that signs (two matching credentials are stored). The space is finite and is enumerated completely.",
+   "doubles implement the public UserValidationMethod / CredentialStore traits; the counter setting is on so that a premature update would show in the snapshot",
+   "DESIGN.md §4 C04"),
+ "C05": ("stores", "exploration",
+   "proptest-generated store contents and allow/exclude lists against the authenticator (model oracle) and differential contract conformance of every shipped store and lock wrapper against the reference lookup semantics",
+   "(A) generated contents over three RPs with identical user handles and every list shape (absent, empty, hits, misses, foreign-RP ids, unknown descriptor types) drive get_assertion / make_credential on the reference store, MemoryStore, the Option slot and a lock wrapper: the credential used must belong to the RP and to a non-empty allow list and be the first the reference store lists; credential-excluded must occur exactly when a non-empty exclude list names a credential of the same RP, creating nothing; the store must be queried with None for an empty list and with the request's RP ID. (B) all nine shipped store/wrapper types are compared with the contract { c | c.rp_id == rp and (ids None or c.id in ids) } on generated save/update/query sequences.",
+   "known finding D5 (MemoryStore family ignores rp_id when ids are given) is recognised by signature and counted so the search continues; every other disagreement is a violation",
+   "DESIGN.md §4 C05"),
+ "C11": ("ceremony", "exploration",
+   "complete enumeration of capability x residentKey x requireResidentKey x credProps (x CTAP rk) through the real client/authenticator against the table in the statement",
+   "All 87 configurations are run through Client::register + authenticate (and make_credential/get_assertion for the CTAP-level rk): the rk option that reaches the store must follow the WebAuthn mapping, the stored user handle must exist exactly when the credential is discoverable under the store capability, a required resident key on a non-discoverable-only store must be refused with nothing stored, credProps.rk when requested must equal the stored discoverability and the assertion must return a user handle exactly when one is stored. The space is finite and enumerated completely.",
+   "capability is injected through the reference store's get_info",
+   "DESIGN.md §4 C11"),
  "C02": ("ceremony", "exploration",
    "proptest-generated registration histories through the real Client, judged by an independent relying-party verifier and a store-delta model (model-based oracle)",
    "Generated histories of registrations (all client-data modes, algorithm lists, challenge/user shapes, id lengths, counter settings, three store kinds, nine accepted origin/RP-ID sites) are executed on the real client+authenticator; each success is verified the way a relying party would (client data, attestation object, authenticator data layout decoded independently, COSE/DER key agreement, P-256 point validity) and against the store delta (exactly one new record whose private scalar matches the returned public key, effective RP ID, fresh id of the configured length); unsupported-only algorithm lists must fail and leave the store unchanged.",
